@@ -90,12 +90,12 @@ Print Assumptions C15_spec_is_textbook.
       - exceptional halt (stack underflow/overflow, invalid opcode, out of gas):
         an error status with all gas consumed.
       The statement is silent only once the program reaches an opcode outside
-      the computational / stack / memory groups ([PUnsupported]): environment,
-      storage, calls, logs and jumps belong to C16. *)
+      the computational / stack / memory / storage groups ([PUnsupported]):
+      environment, calls, logs and jumps belong to C16. *)
 Definition C15_full : Prop :=
   forall (code : list N) (gas : N) (pool0 : list Z) (n : nat),
     bytes_ok code -> (gas < gas_bound)%N ->
-    let sr := spec_run code n (mkP [] [] 0 gas) [] in
+    let sr := spec_run code n (mkP [] [] 0 gas []) [] in
     fst sr <> PUnsupported ->
     exists r, run jump_table op_bodies code n (init_state globals pool0 gas) [] = (r, snd sr) /\
               res_rel globals gas r (fst sr).
@@ -125,15 +125,48 @@ Qed.
 Print Assumptions C15_programs_from_any_state.
 
 (* ------------------------------------------------------------------------------------- *)
-(* 4. Memory reads back what was written (on the specification machine, hence by
-      3. on the implementation model).  PARTIAL: the storage half of the sentence
-      (SLOAD after SSTORE) is not covered - SLOAD/SSTORE go through StateDB and
-      EIP-2200 gas, which this model does not contain (C16's state model). *)
-Theorem C15_memory_reads_back_partial :
-  forall m off v, 0 <= off -> (Z.to_nat off + 32 <= length m)%nat -> inrange v ->
-    spec_mload (spec_mstore m off v) off = v.
-Proof. exact mload_mstore. Qed.
-Print Assumptions C15_memory_reads_back_partial.
+(* 4. Memory and storage read back what was written.
+      - MLOAD after MSTORE at the same offset returns the stored word (specification
+        machine; by 3. also the implementation model).
+      - Storage: the regenerated bodies of SLOAD and SSTORE, from any well-formed
+        configuration and for ALL keys and values: SSTORE k v removes its two
+        operands, leaves the rest of the stack and the memory unchanged and turns
+        the storage s into [st_set s k v]; SLOAD k replaces k by [st_get s k] and
+        changes nothing else.  With the two laws of [st_get]/[st_set] this is:
+        SLOAD after SSTORE of the same key reads the stored word, every other
+        slot is unchanged.  3. carries this to whole programs, including the
+        EIP-2200 cost of SSTORE over an empty committed storage.
+      Not modelled: EIP-2200's refund counter, a non-empty committed storage,
+      write protection in static calls. *)
+Theorem C15_memory_and_storage_read_back :
+  (forall m off v, 0 <= off -> (Z.to_nat off + 32 <= length m)%nat -> inrange v ->
+     spec_mload (spec_mstore m off v) off = v) /\
+  (forall s k v, st_get (st_set s k v) k = v) /\
+  (forall s k v k', k' <> k -> st_get (st_set s k v) k' = st_get s k') /\
+  (exists name body,
+     entry jump_table 84 = plain_op 800 1 1024 name /\ exec_stmt op_bodies name 84 = Some body /\
+     pc_extra name 84 = 0%N /\ sload_correct globals body) /\
+  (exists name body,
+     entry jump_table 85 = mkOp true 0 2 1026 false false true false false true false name "gasSStoreEIP2200" "" /\
+     exec_stmt op_bodies name 85 = Some body /\ pc_extra name 85 = 0%N /\ sstore_correct globals body).
+Proof.
+  exact (conj mload_mstore (conj st_get_set_same (conj st_get_set_other
+          (conj (t_sload _ _ _ real_table_ok) (t_sstore _ _ _ real_table_ok))))).
+Qed.
+Print Assumptions C15_memory_and_storage_read_back.
+
+(* the storage model stands for ANY implementation of GetState/SetState (for one
+   account) that satisfies get-after-set: after any sequence of writes applied to
+   both, every read agrees *)
+Theorem C15_storage_any_implementation :
+  forall (S : Type) (get : S -> Z -> Z) (set : S -> Z -> Z -> S),
+    (forall s k v, get (set s k v) k = v) ->
+    (forall s k v k', k' <> k -> get (set s k v) k' = get s k') ->
+    forall ws s m, represents S get s m ->
+      represents S get (fold_left (fun s kv => set s (fst kv) (snd kv)) ws s)
+                       (fold_left (fun m kv => st_set m (fst kv) (snd kv)) ws m).
+Proof. exact represents_writes. Qed.
+Print Assumptions C15_storage_any_implementation.
 
 (* ------------------------------------------------------------------------------------- *)
 (* 5. Bridge: the regenerated jump table and bodies meet every condition the
@@ -164,14 +197,25 @@ Definition ex_code : list N :=
    5; 96;7; 128; 1; 96;0; 82; 96;0; 81; 96;3; 144; 27; 0]%N.
 Example C15_nonvacuous_program :
   bytes_ok ex_code /\ (100000 < gas_bound)%N /\
-  fst (spec_run ex_code 40 (mkP [] [] 0 100000) []) =
-    PStop (mkP [49152; 0] (be_bytes 32 14) 81 99956) /\
+  fst (spec_run ex_code 40 (mkP [] [] 0 100000 []) []) =
+    PStop (mkP [49152; 0] (be_bytes 32 14) 81 99956 []) /\
   fst (run jump_table op_bodies ex_code 40 (init_state globals [(-42); 2 ^ 300; 7] 100000) []) <> Next (init_state globals [] 0).
 Proof.
   split; [unfold bytes_ok, ex_code; repeat constructor|].
   split; [reflexivity|]. split; [vm_compute; reflexivity|]. vm_compute. discriminate.
 Qed.
 Print Assumptions C15_nonvacuous_program.
+
+(* PUSH1 9; PUSH1 1; SSTORE; PUSH1 0; PUSH1 2; SSTORE; PUSH1 5; PUSH1 1; SSTORE; PUSH1 1; SLOAD;
+   PUSH1 2; SLOAD; PUSH1 3; SLOAD: overwrite, zero value, unwritten slot *)
+Definition ex_storage : list N :=
+  [96;9;96;1;85; 96;0;96;2;85; 96;5;96;1;85; 96;1;84; 96;2;84; 96;3;84; 0]%N.
+Example C15_nonvacuous_storage :
+  bytes_ok ex_storage /\
+  fst (spec_run ex_storage 40 (mkP [] [] 0 100000 []) []) =
+    PStop (mkP [0; 0; 5] [] 24 75973 [(1, 5); (2, 0)]).
+Proof. split; [unfold bytes_ok, ex_storage; repeat constructor|vm_compute; reflexivity]. Qed.
+Print Assumptions C15_nonvacuous_storage.
 
 (* a well-formed configuration with operands for every arity exists, and SDIV of
    the two extreme operands is the specified overflow case *)
